@@ -14,12 +14,21 @@ pub const ABSENT: &str = "zz";
 
 thread_local! {
     static UNIVERSE_SIZE: std::cell::Cell<usize> = const { std::cell::Cell::new(6) };
+    /// explicit name universe (histories on the huge graph: hubs, their neighbours, high positions)
+    static UNIVERSE_OVERRIDE: std::cell::RefCell<Option<Vec<String>>> = const { std::cell::RefCell::new(None) };
+}
+
+/// Replaces the name universe of the calling thread by an explicit list (None = back to the
+/// built-in universe). `set_universe` also clears it.
+pub fn set_universe_names(names: Option<Vec<String>>) {
+    UNIVERSE_OVERRIDE.with(|u| *u.borrow_mut() = names);
 }
 
 /// Sets the size of the name universe for the calling thread (6 = the classic universe; larger
 /// universes add generated names whose order is unrelated to their index).
 pub fn set_universe(n: u8) {
     UNIVERSE_SIZE.with(|u| u.set((n as usize).max(1)));
+    set_universe_names(None);
 }
 
 pub fn universe_size() -> usize {
@@ -27,6 +36,9 @@ pub fn universe_size() -> usize {
 }
 
 pub fn uname(i: u8) -> String {
+    if let Some(n) = UNIVERSE_OVERRIDE.with(|u| u.borrow().as_ref().map(|v| v[(i as usize) % v.len()].clone())) {
+        return n;
+    }
     let k = (i as usize) % universe_size();
     if k < UNIVERSE.len() {
         UNIVERSE[k].to_string()
